@@ -1272,6 +1272,10 @@ class Node:
                 peer_list.append(peer)
         app._node = self
         app.start()
+        # a peer may have completed its capabilities exchange already
+        if any(peer.connection and peer.connection.state in PEER_READY_STATES
+               for peer in peers):
+            app.is_ready.set()
 
     def add_peer(self, peer_uri: str, realm_name: str = None,
                  ip_addresses: list[str] = None,
